@@ -272,6 +272,10 @@ class NumericRange(RangeMixin, qcore.Query):
         from whoosh.fields import NUMERIC
         from whoosh.util.numeric import tiered_ranges
 
+        if not qcore.field_is_searchable(ixreader, self.fieldname):
+            # The index does not have this field: nothing matches
+            return qcore.NullQuery
+
         field = ixreader.schema[self.fieldname]
         if not isinstance(field, NUMERIC):
             raise Exception("NumericRange: field %r is not numeric"
